@@ -63,6 +63,7 @@ func runImpl(c *Context, l *Logger) error {
 	resBz, err := c.client.ABCIQuery(context.Background(), "/band.oracle.v1.Query/PendingRequests", bz)
 	if err != nil {
 		l.Error(":exploding_head: Failed to get pending requests with error: %s", c, err.Error())
+		return err
 	}
 	pendingRequests := types.QueryPendingRequestsResponse{}
 	c.bandApp.AppCodec().MustUnmarshal(resBz.Response.Value, &pendingRequests)
